@@ -44,6 +44,8 @@ def parseOptHex (w : String) : Option (Option Bytes) :=
 def parseItems : Nat → List String → Option (Items × List String)
   | 0, _ => none
   | _ + 1, "}" :: ws => some (.nil, ws)
+  -- "W": this application generates a URL during its construction (before it is mounted): no effect on the tree
+  | fuel + 1, "W" :: ws => parseItems fuel ws
   | fuel + 1, "L" :: id :: re :: meth :: kind :: ws =>
     match id.toNat?, parseRe re, parseOptHex meth, parseKind kind with
     | some id, some (some re), some meth, some kind =>
@@ -274,26 +276,28 @@ def evalCase (spec : Bool) (ws : List String) : String :=
         else "S:" ++ mpOut (mpMatchStr rx q mp h s p) ++ " C:" ++ mpOut (mpMatchPtr rx q mp h s p)
       | _, _, _ => "bad-op"
     | _, _ => "bad-op"
-  | ["P", meth, h, s, p, k] :: rest =>
-    match parseHex meth, parseHex h, parseHex s, parseHex p, k.toNat? with
-    | some meth, some h, some s, some p, some k =>
-      let apps := (rest.take k).mapM fun sec => match parseMp sec with
-        | some (mp, tree) => (parseTree tree).map fun t => (mp, t)
-        | none => none
+  | ["P", meth, h, s, p, k, rounds] :: rest =>
+    match parseHex meth, parseHex h, parseHex s, parseHex p, k.toNat?, rounds.toNat? with
+    | some meth, some h, some s, some p, some k, some rounds =>
+      let apps := (rest.take k).mapM fun sec => match sec with
+        | kind :: sec' => match parseMp sec' with
+          | some (mp, tree) => (parseTree tree).bind fun t =>
+              if kind == "A" then some (true, mp, t) else if kind == "S" then some (false, mp, t) else none
+          | none => none
+        | [] => none
       match apps, parseOracle ((rest.drop k).headD []) {} with
       | some apps, some o =>
         let rx := o.rx
-        if !regexesOk rx (apps.flatMap fun a => mpRegexes a.1 ++ a.2.regexes) then "cfg-error"
+        if !regexesOk rx (apps.flatMap fun a => mpRegexes a.2.1 ++ a.2.2.regexes) then "cfg-error"
         else
-          let cfg := apps.map fun a => (a.1, a.2.opts)
-          let r := if spec then Spec.poolRoute rx cfg meth (cstr h) (cstr s) (cstr p) else poolRoute rx q cfg meth h s p
-          let m := if spec then (Spec.poolFind rx (cfg.map (·.1)) (cstr h) (cstr s) (cstr p)).map (·.2)
-                   else (poolFind rx q h s p (cfg.map (·.1)) 0).map (·.2)
+          let cfg := apps.map fun a => (a.1, a.2.1, a.2.2.opts)
+          let r := if spec then Spec.poolRouteAll rx cfg rounds meth (cstr h) (cstr s) (cstr p)
+                   else poolRouteAll rx q cfg rounds meth h s p
           match r with
           | none => "none"
-          | some (i, evs) => s!"{i} {toHex (m.getD [])} {evsStr evs}"
+          | some (i, m, evs) => s!"{i} {toHex m} {evsStr evs}"
       | _, _ => "bad-op"
-    | _, _, _, _, _ => "bad-op"
+    | _, _, _, _, _, _ => "bad-op"
   | ("T" :: isapp :: key :: tpl :: nh :: kvs) :: _ =>
     match parseHex key, parseHex tpl, nh.toNat? with
     | some key, some tpl, some nh =>
